@@ -56,6 +56,11 @@ func (s *scanner) Scan(value bytes.Bytes) (*Number, error) {
 		return nil, err
 	}
 
+	if n.neg && isZero(n.nat) {
+		// -0, -0.0 and -0e5 denote the same value as 0.
+		n.neg = false
+	}
+
 	return &n, nil
 }
 
@@ -218,6 +223,15 @@ func (s *scanner) stateExpSignFound(c byte) bool {
 
 func (*scanner) stateExpNumberFound(c byte) bool {
 	return '0' <= c && c <= '9'
+}
+
+func isZero(digits bytes.Bytes) bool {
+	for _, c := range digits.Data() {
+		if c != '0' {
+			return false
+		}
+	}
+	return true
 }
 
 func appendZeros(to bytes.Bytes, n int) bytes.Bytes {
